@@ -120,19 +120,29 @@ func WithToken() OptionFn {
 	uid := xid.New().String()
 
 	return func(h *Honeytrap) error {
-		h.token = uid
+		p := path.Join(h.dataDir, "token")
 
-		p := h.dataDir
-		p = path.Join(p, "token")
+		if data, err := ioutil.ReadFile(p); err == nil {
+			if _, err := xid.FromString(string(data)); err == nil {
+				h.token = string(data)
+				return nil
+			}
 
-		if _, err := os.Stat(p); os.IsNotExist(err) {
-			ioutil.WriteFile(p, []byte(uid), 0600)
-		} else if err != nil /* other error */ {
+			// the file is empty or cut short (an earlier start was
+			// interrupted while writing it): generate the token anew
+		} else if !os.IsNotExist(err) {
 			return err
-		} else if data, err := ioutil.ReadFile(p); err != nil {
+		}
+
+		// write to a temporary file and rename, so that an interrupted start
+		// leaves either no token file or a complete one
+		tmp := p + ".tmp"
+		if err := ioutil.WriteFile(tmp, []byte(uid), 0600); err != nil {
 			return err
-		} else {
-			uid = string(data)
+		}
+
+		if err := os.Rename(tmp, p); err != nil {
+			return err
 		}
 
 		h.token = uid
